@@ -203,7 +203,7 @@ def worker(k: int, n: int, depth: int) -> Part:
 
 
 def run(ctx: Ctx) -> None:
-    depth = 6 if ctx.thorough else 5
+    depth = (6 if ctx.thorough else 5) + int(__import__("os").environ.get("VF_DEEPER", 0))
     ctx.rule = (
         f"real TaskRegistry/Task on the virtual loop: {len(configs())} task configurations (restart_after_reconnect x wait_for_connection x repeat_after in {{None,5,0}} x wait_before_start in {{0,2}} x target "
         f"lasting {{0,3}} s) plus a second always-restarting task; ALL event sequences of length <= {depth} over {EVENTS} (connection changes through the real ConnectionManager), then 12 s of timers. "
